@@ -358,8 +358,13 @@ func genDiffCase(r *Rng) []Op {
 	g := newCmdGen(r, "C09")
 	ops := []Op{{"reset", false}}
 	srcThere, dstThere := r.Chance(7, 8), r.Chance(7, 8)
+	// the pair's name: now and then one that needs escaping on its way to the server
+	name := "a.wsp"
+	if r.Chance(1, 4) {
+		name = []string{"x+y.wsp", "p&q=r.wsp", "50%.wsp", "a#b.wsp", "semi;colon.wsp", "two~s~words.wsp"}[r.Intn(6)]
+	}
 	if srcThere {
-		ops = g.writeFile(ops, "src/a.wsp", g.lay, 1+r.Intn(3))
+		ops = g.writeFile(ops, "src/"+name, g.lay, 1+r.Intn(3))
 	}
 	if dstThere {
 		lay := g.lay
@@ -369,25 +374,25 @@ func genDiffCase(r *Rng) []Op {
 				lay = nearLayout(r, g.lay)
 			}
 		}
-		ops = g.writeFile(ops, "dst/a.wsp", lay, 1+r.Intn(3))
+		ops = g.writeFile(ops, "dst/"+name, lay, 1+r.Intn(3))
 	}
 	w := g.win()
 	if !srcThere || !dstThere {
 		// one failure at a time: the two sides are read concurrently and the first error wins
 		w = g.winAll()
 	}
-	ops = append(ops, Op{"cmd diff pairs=src/a.wsp>dst/a.wsp " + w, true})
+	ops = append(ops, Op{"cmd diff pairs=src/" + name + ">dst/" + name + " " + w, true})
 	// the verdict is symmetric
-	ops = append(ops, Op{"cmd diff pairs=dst/a.wsp>src/a.wsp swap=1 " + w, true})
+	ops = append(ops, Op{"cmd diff pairs=dst/" + name + ">src/" + name + " swap=1 " + w, true})
 	if r.Chance(1, 3) {
 		// the same comparison with the source behind `whispertool server`: a file missing
 		// there is a reported difference too, not another kind of error
-		ops = append(ops, Op{"cmd diff pairs=src/a.wsp>dst/a.wsp " + w + " remote=1", true})
+		ops = append(ops, Op{"cmd diff pairs=src/" + name + ">dst/" + name + " " + w + " remote=1", true})
 	}
 	if srcThere && dstThere && r.Bool() {
 		// make the destination equal to the source, then diff is clean
-		ops = append(ops, Op{fmt.Sprintf("cmd copy pairs=src/a.wsp>dst/a.wsp %s copynan=1 archive=-1 from=0 until=0", g.opts()), false})
-		ops = append(ops, Op{"cmd diff pairs=src/a.wsp>dst/a.wsp archive=-1 from=0 until=0", true})
+		ops = append(ops, Op{fmt.Sprintf("cmd copy pairs=src/%s>dst/%s %s copynan=1 archive=-1 from=0 until=0", name, name, g.opts()), false})
+		ops = append(ops, Op{"cmd diff pairs=src/" + name + ">dst/" + name + " archive=-1 from=0 until=0", true})
 	}
 	return ops
 }
